@@ -94,6 +94,7 @@ func Now() time.Duration { return vsched.Now() }
 // ResetGlobals restores process-global mangos state; it is the Reset function of
 // every scenario (runs outside the scheduler).
 func ResetGlobals() {
+	vsched.Epoch = vsched.DefaultEpoch
 	core.VerifNewSocketHook = func(s mangos.Socket) { vsched.AtExit(func() { _ = s.Close() }) }
 	core.VerifResetPipeIDs()
 	inproc.VerifReset()
@@ -102,6 +103,13 @@ func ResetGlobals() {
 	for _, f := range resetters {
 		f()
 	}
+}
+
+// ResetNearIDWrap is ResetGlobals with the wall clock placed so that the id counters REQ and SURVEYOR
+// seed from it (uint32 of the clock's nanoseconds) start at 0xfffffffd: the third id wraps.
+func ResetNearIDWrap() {
+	ResetGlobals()
+	vsched.Epoch = vsched.EpochBeforeIDWrap
 }
 
 var resetters []func()
